@@ -493,7 +493,8 @@ def _oracle_lines(seq):
 
 # ----------------------------------------------------------------------------- generators
 STRS = ["", " ", "a", "start", "stop", "\n", "a\nb", '"', 'q"uo"te', "]", "[", "\n]", ",\n", "[\n", "}\n{", "\\", "\\n", "é", "日本語", "😀", " ", "\r\n", "\t", "\x00", "\x7f", "nul\x00l", "x" * 40,
-        "scan_\udcb5m.dat", "\udc80"]   # lone surrogates (os.fsdecode of a non-UTF-8 file name): legal str, json.dumps escapes them
+        "scan_\udcb5m.dat", "\udc80",
+        "NaN", "Infinity", "-Infinity", "Andor Infinity 3", "value NaN here", "null"]   # words that a textual post-processing of the dump could hit   # lone surrogates (os.fsdecode of a non-UTF-8 file name): legal str, json.dumps escapes them
 
 
 def gen_value(rng, depth):
